@@ -28,7 +28,7 @@ def generate(ctx, name, consts, timeout=1500, simulate=None):
 
 def base_survey(net):
     sv = session.Survey(net)
-    if net["t"] == "free2d":
+    if net["t"] in ("free2d", "freevec3d", "freelev1d"):
         for p in sv.pts:
             p["con"] = True
     return sv
